@@ -71,6 +71,7 @@ fn flips(seed: u64, shard: usize, rounds: usize, rep: &mut Report) {
     if shard == 0 {
         huge_genomes(rep);
         umad_long_parents(rep);
+        flips_on_long_genomes(rep);
     }
     for r in 0..rounds {
         let mut g = Xo::derive(seed, "C11-flip", (shard * 1_000_003 + r) as u64);
@@ -315,6 +316,41 @@ fn judge_umad_child(child: &[UGene], len: usize, handed_out: u32, first_serial: 
 /// addition 1 / deletion 0 (exactly one new gene after every parent gene) and a middle setting.
 /// UMAD has to answer for every genome size; nothing in it may be sized, or recurse, with the
 /// length of a run of deleted genes.
+/// Bit-flip on genomes of three million genes at ordinary and extreme rates, all flavours: same
+/// length, every gene kept or negated, rate 1 flips all, rate 0 none - and an answer in time
+/// linear in the genome.
+fn flips_on_long_genomes(rep: &mut Report) {
+    let len = 3_000_000usize;
+    let parent: Vec<bool> = (0..len).map(|i| i % 5 < 2).collect();
+    for rate in [0.0f32, 0.5, 1.0] {
+        for flavour in ["Vec<bool>", "Bitstring"] {
+            vh_core::shard::set_context(format!("C11 WithRate({rate}) on a {flavour} of {len} genes"));
+            let mut rng = TraceRng::new(len as u64 ^ u64::from(rate.to_bits()));
+            let out = catch(|| {
+                if flavour == "Bitstring" {
+                    WithRate::new(rate).mutate(Bitstring { bits: parent.clone() }, &mut rng).map(|b| b.bits).map_err(|e| format!("{e:?}"))
+                } else {
+                    WithRate::new(rate).mutate(parent.clone(), &mut rng).map_err(|e| format!("{e:?}"))
+                }
+            });
+            rep.eval();
+            rep.count(&format!("WithRate/{flavour}:long-genome"));
+            rep.distinct(fnv_str(&format!("longflip{rate}{flavour}")));
+            match out {
+                Ok(Ok(c)) if c.len() == len => {
+                    let flipped = c.iter().zip(&parent).filter(|(a, b)| a != b).count();
+                    let ok = if rate == 0.0 { flipped == 0 } else if rate >= 1.0 { flipped == len } else { flipped > len / 4 && flipped < 3 * len / 4 };
+                    if !ok {
+                        rep.violation(format!("C11/WithRate/{flavour}/long-genome"), || json!({"length": len, "rate": rate, "genes_flipped": flipped}));
+                    }
+                }
+                Ok(Ok(c)) => rep.violation(format!("C11/WithRate/{flavour}/length"), || json!({"parent_len": len, "child_len": c.len()})),
+                other => rep.violation(format!("C11/WithRate/{flavour}/failed"), || json!({"config": format!("len={len} rate={rate}"), "observed": format!("{other:?}").chars().take(300).collect::<String>()})),
+            }
+        }
+    }
+}
+
 fn umad_long_parents(rep: &mut Report) {
     let len = 1_000_000usize;
     for (add, del) in [(0.0f64, 1.0f64), (1.0, 1.0), (0.0, 0.999_999), (0.3, 0.999_999), (1.0, 0.0), (0.3, 0.3)] {
